@@ -337,9 +337,35 @@ def tab_in_identity():
             c_reset("soft", b"HEAD@{2}"), c_reflog(), c_log(2), c_config(b"core.x", b"a\tb\tc"), c_status()]
 
 
+def backslash_names():
+    # F56: a backslash is an ordinary byte of a file name (Goit used to rewrite it to '/')
+    return ID + [W(b"a/b", b"one"), W(b"a\\b", b"two"), W(b".goit\\zz", b"z"), W(b"x\\", b"3"), W(b"d\\e\\f", b"4"), c_status(),
+                 c_add([b"."]), c_ls_files(True), c_commit(b"c1"), c_status(), W(b"a\\b", b"changed"), c_status(), c_add([b"a\\b"]),
+                 c_ls_files(True), c_rm([b"a\\b"]), c_ls_files(False), c_status(), c_restore([b"a/b"]), c_reset("hard", b"HEAD@{0}"),
+                 c_ls_files(True), c_status(), c_rm([b".goit\\zz", b"x\\"]), c_commit(b"c2"), c_ls_files(False)]
+
+
+def branches_named_head():
+    # F57: only the exact name HEAD stands for the current branch
+    return ID + [W(b"f", b"1"), c_add([b"f"]), c_commit(b"c1"), c_branch(b"head"), c_branch(b"Head"), W(b"f", b"2"), c_add([b"f"]),
+                 c_commit(b"c2"), c_rev_parse([b"head", b"Head", b"HEAD", b"main"]), c_branch_list(), c_switch(b"head"), W(b"f", b"3"),
+                 c_add([b"f"]), c_commit(b"c3 on head"), c_rev_parse([b"HEAD", b"head", b"main", b"Head"]), c_log(3), c_reflog(),
+                 c_switch(b"main"), c_branch_delete(b"head"), c_rev_parse([b"head"]), c_rev_parse([b"hEAD"]), c_branch_list()]
+
+
+def carriage_return_messages():
+    # F50: a commit message is read back byte for byte, carriage returns included
+    return ID + [W(b"f", b"1"), c_add([b"f"]), c_commit(b"line1\r\nline2\r"), c_log(1), W(b"f", b"2"), c_add([b"f"]),
+                 c_commit(b"\r\n\r\nblank crlf lines\r\n"), c_log(2), W(b"f", b"3"), c_add([b"f"]), c_commit(b"cr\rinside and at the end\r"),
+                 c_log(3), c_reflog(), c_reset("soft", b"HEAD@{1}"), c_log(2), c_reflog()]
+
+
 ORACLE_ONLY = {"very-long-lines", "newline-names", "invalid-ignore-lines", "quoting-ignore-lines"}
 
 DIRECTED = [
+    (("C12", "C14", "C11"), "carriage-return-messages", carriage_return_messages, "F50: commit messages with CR LF line ends, blank CR LF lines, a lone CR inside and at the end"),
+    (("C04", "C17", "C13", "C09"), "backslash-names", backslash_names, "F56: file names containing a backslash, beside a/b, and a name starting with .goit followed by a backslash"),
+    (("C10", "C14"), "branches-named-head", branches_named_head, "F57: branches called head and Head: rev-parse reports their own commits; only HEAD is the current branch"),
     (("C11", "C20", "C12"), "tab-in-identity", tab_in_identity, "a configured name containing a tab: read back without it, so journal lines stay well formed and reflog/reset keep working"),
     (("C04", "C06"), "add-below-a-file", add_below_a_file, "a tracked path below a directory that became a regular file (ENOTDIR) is a path that no longer exists: add unstages it"),
     (("C17", "C13", "C04"), "blank-ignore-lines", blank_ignore_lines, "F55: empty lines in .goitignore (in the middle, at the end, CRLF files) exclude nothing"),
